@@ -286,25 +286,25 @@ fn raw_frames(sink: &[u8]) -> Option<Vec<&[u8]>> {
     Some(v)
 }
 
+/// The DEFLATE oracle for the model.  Block boundaries are taken from the sink the implementation
+/// produced; the compressed bytes are NOT: they are recomputed with flate2 (zlib-rs back end, the
+/// same library and parameters noodles uses), at the requested level and -- when that attempt is
+/// longer than 65510 bytes -- at level 0, so that the model has to take the fallback decision
+/// itself and a wrong decision of the implementation shows up as a different sink.
 fn build_table(level: u8, sink: &[u8]) -> Table {
     let mut t: Table = Vec::new();
     let Some(frames) = raw_frames(sink) else { return t };
     for f in frames {
         let cdata = &f[18..f.len() - 8];
         let Ok((block, _)) = gz::inflate_raw(cdata, 1 << 17) else { continue };
-        if t.iter().any(|(_, b, c)| *b == block && c == cdata) {
+        if block.is_empty() || t.iter().any(|(_, b, _)| *b == block) {
             continue;
         }
-        if level != 0 && !block.is_empty() {
-            let attempt = flate2_deflate(level, &block);
-            if attempt.len() > MAX_CDATA {
-                // the implementation must have fallen back to level 0 for this block
-                t.push((level, block.clone(), attempt));
-                t.push((0, block, cdata.to_vec()));
-                continue;
-            }
+        let attempt = flate2_deflate(level, &block);
+        if attempt.len() > MAX_CDATA && level != 0 {
+            t.push((0, block.clone(), flate2_deflate(0, &block)));
         }
-        t.push((level, block, cdata.to_vec()));
+        t.push((level, block, attempt));
     }
     t
 }
